@@ -29,6 +29,7 @@ def run(ctx: Ctx) -> list[Ob]:
     obs += r3.r3g(ctx) + r3.r3l(ctx) + r3.r3m(ctx)
     obs += r5h_mod.r5h(ctx)
     obs += r14u_mod.merged_node_lists_unique(ctx)
+    obs += r1.r1e(ctx)
     return obs
 
 
@@ -54,8 +55,9 @@ SPEC = PropSpec(
         " R3g / R3l / R3m (the address book of a folded parameter graph is built by the same functions as the layers'): an index-free or slice form replaces a gather only under an element-by-element comparison of the cumulative index with a range bounded by the sources' fold counts (a test of fixed positions -- endpoints and length -- is satisfied by permuted and repeating indices); offsets are exclusive prefix sums of num_folds; fold indices are never re-ordered."
         ' R5h: the two axis idioms put axis 0 on the right side -- in `d if d >= 0 else d + len(shape)` (normalisation) axis 0 stays, in `a if a < 0 else a + 1` (shift past the fold dimension) every non-negative axis, 0 included, moves by one; the branch taken at 0 is derived from the comparison operator of each such conditional expression.'
         ' R14u: the constructors that merge the node lists of several operand graphs (Parameter.from_nary / TorchParameter.from_nary) de-duplicate the concatenation in order: operands sharing a sub-graph (log(q) + q) or the same operand twice (q * q) would otherwise list the shared nodes twice and the composite graph could not be ordered, compiled or evaluated.'
+        ' R1e: a torch parameter node is not pickier than the symbolic node it is compiled from -- the atomic comparisons its constructor asserts on hyper-parameters both constructors take under the same name are among those the symbolic constructor asserts (a torch-side `0 <= vmin` would make a symbolically valid scaled sigmoid onto [-1, 1] fail at compile time).'
     ),
     not_decided="the mathematical content of each operator (numerical).",
     run=run,
-    floors={"R14u": 2, "R5h": 8, "R3g": 2, "R3l": 2, "R3m": 8, "R3j": 40, "R12c": 8, "R3i": 4, "R5d": 2, "R4g": 3, "R5c": 2, "R4l": 60, "R4p": 80, "R1a": 28, "R1b": 28, "R1c": 100, "R3a": 60, "R3f": 60, "R5a": 9, "R5b": 12, "R4a": 100},
+    floors={"R1e": 6, "R14u": 2, "R5h": 8, "R3g": 2, "R3l": 2, "R3m": 8, "R3j": 40, "R12c": 8, "R3i": 4, "R5d": 2, "R4g": 3, "R5c": 2, "R4l": 60, "R4p": 80, "R1a": 28, "R1b": 28, "R1c": 100, "R3a": 60, "R3f": 60, "R5a": 9, "R5b": 12, "R4a": 100},
 )
